@@ -229,7 +229,25 @@ func propC10(ch core.Chooser, st *core.Stats) error {
 	var opsDone int64
 	var inFlight [4]int64 // reader, writer, iterator, maintenance operations in flight
 	var atClose [4]int64
-	pogreb.VerifCompactionYield = func(db *pogreb.DB, point string) { runtime.Gosched() }
+	// variant (drawn, only when the background worker is the only source of compactions): the
+	// first compaction that reaches a yield point is parked there - outside the database lock -
+	// until Close has been issued. Close has to wait for the worker: if it returns while the
+	// compaction is still parked, a goroutine of the database has survived Close.
+	parkBg := bgCompact > 0 && compacts == 0 && withClose && core.Pct(ch, "park_bg_compaction", 40)
+	parked, release := make(chan struct{}), make(chan struct{})
+	var parkOnce, releaseOnce sync.Once
+	doRelease := func() { releaseOnce.Do(func() { close(release) }) }
+	defer doRelease()
+	pogreb.VerifCompactionYield = func(db *pogreb.DB, point string) {
+		if parkBg {
+			parkOnce.Do(func() {
+				close(parked)
+				<-release
+			})
+			return
+		}
+		runtime.Gosched()
+	}
 	defer func() { pogreb.VerifCompactionYield = nil }()
 	class := func(kind string) int {
 		switch kind {
@@ -310,6 +328,7 @@ func propC10(ch core.Chooser, st *core.Stats) error {
 	})
 	var closeCall, closeRet int64
 	var closeErr error
+	closedWhileParked := false
 	closed := make(chan struct{})
 	if withClose {
 		threshold := int64(total * closeAfter / 100)
@@ -322,9 +341,30 @@ func propC10(ch core.Chooser, st *core.Stats) error {
 			for i := range inFlight {
 				atClose[i] = atomic.LoadInt64(&inFlight[i])
 			}
+			if parkBg {
+				select {
+				case <-parked:
+				case <-time.After(40 * time.Millisecond): // no compaction came by: nothing to park
+				}
+			}
 			closeCall = c.h.now()
 			atomic.StoreInt32(&closedFlag, 1)
-			closeErr = core.Safe(func() error { return db.Close() })
+			returned := make(chan struct{})
+			go func() {
+				closeErr = core.Safe(func() error { return db.Close() })
+				close(returned)
+			}()
+			if parkBg {
+				select {
+				case <-returned:
+					// Close did not wait for the parked compaction: it stays parked until the
+					// leak scan below has looked at the goroutines
+					closedWhileParked = true
+				case <-time.After(40 * time.Millisecond):
+					doRelease() // Close is waiting for the worker, as it should: let it go on
+				}
+			}
+			<-returned
 			closeRet = c.h.now()
 		}()
 	}
@@ -452,6 +492,14 @@ func propC10(ch core.Chooser, st *core.Stats) error {
 	}
 	st.Eval(1)
 	st.Count("fs_"+kind, 1)
+	if parkBg {
+		select {
+		case <-parked:
+			st.Count("runs_close_issued_while_background_compaction_parked", 1)
+		default:
+		}
+	}
+	_ = closedWhileParked
 	st.Count("ops", int64(len(ops)))
 	failed := 0
 	for _, o := range ops {
